@@ -21,9 +21,9 @@ TYPES = {"i8": "int8_t", "u8": "uint8_t", "i16": "int16_t", "u16": "uint16_t", "
 PROBES = {
     "reduce_f": "sinkv(xs::reduce([](B const& p, B const& q) { return p + q; }, x));",
     "swizzle_dyn": "xs::batch<xs::as_unsigned_integer_t<T>, A> idx(0); sink(xs::swizzle(x, idx));",
-    "swizzle_const": "sink(xs::swizzle(x, xs::make_batch_constant<xs::as_unsigned_integer_t<T>, A, rev>()));",
-    "swizzle_const_id": "sink(xs::swizzle(x, xs::make_batch_constant<xs::as_unsigned_integer_t<T>, A, ident>()));",
-    "shuffle": "sink(xs::shuffle(x, y, xs::make_batch_constant<xs::as_unsigned_integer_t<T>, A, mix>()));",
+    "swizzle_const": "sink(xs::swizzle(x, xs::make_batch_constant<xs::as_unsigned_integer_t<T>, rev, A>()));",
+    "swizzle_const_mix": "sink(xs::swizzle(x, xs::make_batch_constant<xs::as_unsigned_integer_t<T>, mixs, A>()));",
+    "shuffle": "sink(xs::shuffle(x, y, xs::make_batch_constant<xs::as_unsigned_integer_t<T>, mix, A>()));",
     "zip_lo": "sink(xs::zip_lo(x, y));",
     "zip_hi": "sink(xs::zip_hi(x, y));",
     "slide_left": "sink(xs::slide_left<sizeof(T)>(x));",
@@ -35,7 +35,7 @@ PROBES = {
     "transpose": "B m[N]; for (size_t i = 0; i < N; ++i) m[i] = x; xs::transpose(m, m + N); sink(m[0]);",
     "compress": "sink(xs::compress(x, x > y));",
     "expand": "sink(xs::expand(x, x > y));",
-    "select_const": "sink(xs::select(xs::make_batch_bool_constant<T, A, alt>(), x, y));",
+    "select_const": "sink(xs::select(xs::make_batch_bool_constant<T, alt, A>(), x, y));",
     "gather": "T buf[128] = {}; xs::batch<xs::as_integer_t<T>, A> idx(1); sink(B::gather(buf, idx));",
     "scatter": "T buf[128] = {}; xs::as_integer_t<T> ia[N]; for (size_t i = 0; i < N; ++i) ia[i] = (xs::as_integer_t<T>)i; auto idx = xs::batch<xs::as_integer_t<T>, A>::load_unaligned(ia); x.scatter(buf, idx); sinkv(buf[1]);",
 }
@@ -47,7 +47,7 @@ TEMPLATE = r"""
 namespace xs = xsimd;
 using A = XSV_ARCH;
 struct rev { static constexpr unsigned get(unsigned i, unsigned n) { return n - 1 - i; } };
-struct ident { static constexpr unsigned get(unsigned i, unsigned) { return i; } };
+struct mixs { static constexpr unsigned get(unsigned i, unsigned n) { return (i * 5 + 3) % n; } };
 struct mix { static constexpr unsigned get(unsigned i, unsigned n) { return (i * 3 + 1) % (2 * n); } };
 struct alt { static constexpr bool get(unsigned i, unsigned) { return i % 2 == 0; } };
 template <class V> __attribute__((noinline)) void sink(V const& v) { volatile auto t = v.get(0); (void)t; }
